@@ -19,7 +19,7 @@ func init() {
 			ruleB5(c)
 			ruleB3(c) // a failed synchronization leaves a closed plugin, which can never become active
 		},
-		explanation: "Decides the typestate of the synchronization lock: requestPluginSync/finishedPluginSync are exactly the exclusive Lock/Unlock and BlockPluginSync/Unblock exactly the shared RLock/RUnlock of the same Adaptation.syncLock, Unblock releasing at most once per block; in the accept loop the runtime's state snapshot (the call of the sync callback with the plugin's synchronize) and the activation (append to the plugin list) both happen with the exclusive lock held, the lock is released exactly once on every path from the acquisition to the next iteration or exit; the activation depends on the snapshot having succeeded, happens under the adaptation lock and is followed by the sort; no other code path adds a plugin to the active list except start-up. BlockPluginSync holds the shared lock at every exit; a deadline on the snapshot's context is started only after the sync lock was acquired.",
+		explanation: "Decides the typestate of the synchronization lock: requestPluginSync/finishedPluginSync are exactly the exclusive Lock/Unlock and BlockPluginSync/Unblock exactly the shared RLock/RUnlock of the same Adaptation.syncLock, Unblock releasing at most once per block; in the accept loop the runtime's state snapshot (the call of the sync callback with the plugin's synchronize) and the activation (append to the plugin list) both happen with the exclusive lock held, the lock is released exactly once on every path from the acquisition to the next iteration or exit; the activation depends on the snapshot having succeeded, happens under the adaptation lock and is followed by the sort; no other code path adds a plugin to the active list except start-up. BlockPluginSync holds the shared lock at every exit; a deadline on the snapshot's context is started only after the sync lock was acquired. Every failing return of plugin.synchronize is preceded by closing the plugin, and the start-up sync callback itself never reports an error.",
 		notDecided: []string{
 			"the runtime's side of the contract (creating containers inside a sync block)",
 			"that sync.RWMutex excludes readers and writers",
@@ -470,6 +470,19 @@ func ruleB4(c *Ctx) {
 		bad = "the closure never keeps a synchronized plugin"
 	}
 	c.ok("B4", "startPlugins/keep", call.Pos(), bad == "", "start-up keeps a launched plugin only if its synchronize returned nil", bad)
+	// one plugin's failure is that plugin's alone: the callback itself never reports an error (a runtime that passes
+	// the callback's error on would otherwise fail start-up and take the healthy plugins down with the failing one)
+	okNil := true
+	nres := closure.Signature.Results().Len()
+	for _, r := range returnsOf(closure) {
+		for _, v := range returnValues(r, nres-1) {
+			if !isNilConst(v) {
+				okNil = false
+			}
+		}
+	}
+	c.ok("B4", "startPlugins/callback-error", closure.Pos(), okNil && nres > 0, "the start-up sync callback returns a nil error whatever single plugins did",
+		"the callback can return a plugin's synchronization error: with a runtime that passes it on, startPlugins fails, its cleanup stops every plugin already started and Start fails — a plugin that fails to synchronize is no longer 'skipped without affecting the others'")
 	// the assignment of r.plugins is dominated by syncFn's nil branch
 	adT := m.named(pkgAdapt, "Adaptation")
 	sfs := syncFnCalls(m, sp)
